@@ -158,6 +158,82 @@ theorem drain_all (s : SM) (hst : s.st ≠ .finished) (c : Cqe) (ht : s.term = s
       simp [this]
 
 
+/-- how the driver files completions: `F_MORE` ones in the queue, the one without as final result -/
+def SM.WF (s : SM) : Prop :=
+  (∀ c ∈ s.queue, c.more = true) ∧ (∀ c, s.term = some c → c.more = false)
+
+theorem wf_new (script : List Cqe) : (SM.new script).WF := by
+  simp [SM.WF, SM.new]
+
+theorem wf_arrive (s : SM) (h : s.WF) : s.arrive.WF := by
+  unfold SM.arrive
+  split
+  · rename_i c rest hst hterm hfut
+    by_cases hm : c.more = true
+    · simp only [hm, if_true]
+      refine ⟨?_, ?_⟩
+      · intro x hx
+        simp only [List.mem_append, List.mem_singleton] at hx
+        rcases hx with hx | hx
+        · exact h.1 x hx
+        · rw [hx]; exact hm
+      · intro x hx; exact h.2 x hx
+    · have hm' : c.more = false := by simpa using hm
+      simp only [hm', Bool.false_eq_true, if_false]
+      refine ⟨h.1, ?_⟩
+      intro x hx
+      simp only [Option.some.injEq] at hx
+      rw [← hx]; exact hm'
+  · exact h
+
+/-- `inner.is_terminated()` right after a completion was returned says exactly "that completion had
+no `F_MORE`" — the test the await form of `SubmitMultiManaged` uses -/
+theorem poll_terminated_iff (s s' : SM) (c : Cqe) (h : s.WF) (hst : s.st ≠ .finished)
+    (hp : s.poll = (.ready (some c), s')) : (s'.st = .finished ↔ c.more = false) ∧ s'.WF := by
+  have key : ∀ t : SM, t.WF → t.st ≠ .finished → t.pollSubmitted = (.ready (some c), s') →
+      (s'.st = .finished ↔ c.more = false) ∧ s'.WF := by
+    intro t ht hts hpt
+    unfold SM.pollSubmitted at hpt
+    cases hq : t.queue with
+    | cons x q =>
+      rw [hq] at hpt
+      simp only [Prod.mk.injEq, P.ready.injEq, Option.some.injEq] at hpt
+      obtain ⟨hx, hs'⟩ := hpt
+      subst hx
+      have hm : x.more = true := ht.1 x (by rw [hq]; simp)
+      rw [← hs']
+      refine ⟨?_, ?_, ?_⟩
+      · simp only [hm]
+        constructor
+        · intro hf; exact absurd hf hts
+        · intro hf; cases hf
+      · intro y hy; exact ht.1 y (by rw [hq]; simp [hy])
+      · exact ht.2
+    | nil =>
+      rw [hq] at hpt
+      cases htm : t.term with
+      | none => rw [htm] at hpt; simp at hpt
+      | some y =>
+        rw [htm] at hpt
+        simp only [Prod.mk.injEq, P.ready.injEq, Option.some.injEq] at hpt
+        obtain ⟨hx, hs'⟩ := hpt
+        subst hx
+        have hm : y.more = false := ht.2 y htm
+        rw [← hs']
+        refine ⟨?_, ?_, ?_⟩
+        · simp [hm]
+        · intro z hz; simp at hz
+        · intro z hz; simp at hz
+  unfold SM.poll at hp
+  cases hs : s.st with
+  | idle =>
+    rw [hs] at hp
+    exact key { s with st := .submitted } h (by simp) hp
+  | submitted =>
+    rw [hs] at hp
+    exact key s h hst hp
+  | finished => exact absurd hs hst
+
 /-! ## `SubmitMultiStream` (await form) -/
 
 /-- consuming one completion of the live submission: exactly one token, `tokOf` of that completion -/
